@@ -1,0 +1,14 @@
+//go:build verif
+
+package sqlparser
+
+// VerifKeywords returns a copy of the tokenizer's keyword table (lower-case spelling -> token id), the table
+// formatID consults to decide whether an identifier must be quoted (verification harness only: the C13
+// statement model regenerates its keyword list from it on every run).
+func VerifKeywords() map[string]int {
+	out := make(map[string]int, len(keywords))
+	for k, v := range keywords {
+		out[k] = v
+	}
+	return out
+}
